@@ -72,6 +72,27 @@ theorem C05_omega_diverges : match parseExpr omegaSrc.toList with
     | .error _ => False :=
   omegaSrc_diverges
 
+
+/-! ### no arithmetic site of the translated slice / index code can fault
+
+`Generated/Code.lean` (re-translated from variable.rs / interpreter.rs on every run) performs every `i32` / `usize`
+operation through a checked primitive (`Fault.overflow`), every `array[i]` through a checked lookup
+(`Fault.outOfBounds`) and every `while` under a budget (`Fault.fuel`).  For all in-range inputs the result is `.ok`:
+none of these faults can occur.  The one overflowing input of the index arm, `idx = i32::MIN`, is exhibited; the lexer
+never produces it (`C05_number_tokens_no_overflow`). -/
+open Generated.Code in
+theorem C05_translated_code_no_fault {α : Type} :
+    (∀ len endpoint step : Int, 0 ≤ len → len ≤ I32_MAX → InI32 endpoint →
+        ∃ r, adjust_slice_endpoint len endpoint step = .ok r) ∧
+    (∀ (fuel : Nat) (xs : List α) (start stop : Option Int) (step : Int), xs.length + 1 ≤ fuel → (xs.length : Int) ≤ I32_MAX →
+        OptInI32 start → OptInI32 stop → step ≠ 0 → ∃ r, slice fuel xs start stop step = .ok r) ∧
+    (∀ (xs : List α) (idx : Int), I32_MIN < idx → idx ≤ I32_MAX → ∃ r, index xs idx = .ok r) ∧
+    (∀ xs : List α, index xs I32_MIN = .error .overflow) :=
+  ⟨fun len e s h0 h1 he => ⟨_, gen_adjust_eq len e s h0 h1 he⟩,
+   fun fuel xs a b s hf hl ha hb hs => ⟨_, C07_translated_slice_eq_python fuel xs a b s hf hl ha hb hs⟩,
+   fun xs i h1 h2 => ⟨_, gen_index_eq xs i h1 h2⟩,
+   fun xs => gen_index_min_overflows xs⟩
+
 end JmesVerif
 
 #print axioms JmesVerif.C05_parser_fuel_sufficient
@@ -83,3 +104,4 @@ end JmesVerif
 #print axioms JmesVerif.C05_search_terminates
 #print axioms JmesVerif.C05_interp_fuel_monotone
 #print axioms JmesVerif.C05_omega_diverges
+#print axioms JmesVerif.C05_translated_code_no_fault
